@@ -10,6 +10,7 @@ trap 'git -C "$REPO" checkout -q -- .' EXIT
 missed=0
 for d in "$PWD"/seeded/*/; do
   id=$(basename "$d"); prop=$(python3 -c "import json;print(json.load(open('$d/meta.json'))['breaks_property'])")
+  if python3 -c "import json,sys;sys.exit(0 if json.load(open('$d/meta.json')).get('outside_the_property') else 1)"; then echo "$id $prop kept for the record, outside the property as stated (see meta.json)"; continue; fi
   if ! git -C "$REPO" apply --check "$d/patch.diff" 2>/dev/null; then echo "$id $prop patch no longer applies (the code it changes has moved)"; continue; fi
   git -C "$REPO" apply "$d/patch.diff"
   # the checks recorded as detecting this seed (usually the property it breaks)
